@@ -120,9 +120,28 @@ def superposition_gap(cfg, V, w_max):
     return gap if abs(gap) > 1e-6 * (abs(full) + abs(parts) + 1e-9) else 0
 
 
+class _Earlier:
+    """value factory view: the same circuit with the same frequencies but every other value replaced by another atom"""
+    def __init__(s, V): s.V = V; s.sym = V.sym; s.mode = V.mode
+    def val(s, name, kind='c'):
+        if name.startswith('ws') or name.endswith('.w0') or name in ('w_max', 't'): return s.V.val(name, kind)
+        return s.V.val(name + '~earlier', kind)
+    def __getattr__(s, k): return getattr(s.V, k)
+
+
 def execute(cfg, V):
     r = cirlib.repo(); csol = r['csol']; cct = r['cct']
-    circuit, params = build(cfg, V)
+    if cfg.get('history'):
+        # the SAME circuit object was analysed before with other element / source values (same frequencies) and then had its components
+        # exchanged in place: the analysis must describe the circuit as it is now
+        circuit, _ = build(cfg, _Earlier(V))
+        w_max0 = V.val('w_max', 'pos')
+        td0 = csol.TimeDomainSolution(circuit=circuit, w_max=w_max0)
+        td0.get_voltage(V.label(cfg['components'][0][0]))
+        now, params = build(cfg, V)
+        circuit.components[:] = now.components
+    else:
+        circuit, params = build(cfg, V)
     ref = cfg['ground'] if cfg.get('ground') is not None else cfg['components'][0][1]
     w_max = V.val('w_max', 'pos')
     obs = []
@@ -283,6 +302,8 @@ def configs(tier, seed):
                 for mode in ('freqs', 'spectrum', 'two_sided', 'time'):
                     if tier == 'quick' and g is None and mode in ('two_sided',): continue
                     cfgs.append(dict(base, mode=mode))
+                    if mode == 'time' and g == 'n0' and (tier == 'thorough' or (ps is passive_sets[0] and len(ss) == 1)):
+                        cfgs.append(dict(base, mode=mode, history=True))
     if tier == 'quick':
         # a periodic source together with a sinusoidal source whose frequency may fall next to a harmonic
         mix = {'components': [('V0', 'n1', 'n0', 'Vper', 'rect'), ('I9', 'n0', 'n2', 'Iac', 1), ('R1', 'n1', 'n2', 'R'), ('C2', 'n2', 'n0', 'C')], 'ground': 'n0'}
@@ -303,7 +324,7 @@ def main(tier):
     rep.functions |= ft.seen
     driver.run_pool(driver.guarded(worker), cfgs, rep, chunksize=1, progress_every=50)
     return rep.finish(
-        explanation='bounded symbolic verification: frequency_components, FrequencyDomainSolution and TimeDomainSolution are executed on circuits whose source frequencies, w_max, evaluation time and values are symbolic; all orderings / coincidences of the frequencies and all regions of the frequency gates are explored; the analysed frequency list is compared with an independent list (distinct source frequencies and harmonics k*w0 <= w_max), each spectral line is shown by z3 to satisfy the tableau at its frequency (periodic sources contribute their true harmonic from the C08 integration oracle), the time functions are shown to equal sum_k Re(X_k e^{j w_k t}) through a polar contract stub for abs/angle, two-sided spectra must be X_0, X_k/2, conj(X_k)/2, and no two analysed frequencies may lie within the frequency resolution of each other',
+        explanation='bounded symbolic verification: frequency_components, FrequencyDomainSolution and TimeDomainSolution are executed on circuits whose source frequencies, w_max, evaluation time and values are symbolic; all orderings / coincidences of the frequencies and all regions of the frequency gates are explored; the analysed frequency list is compared with an independent list (distinct source frequencies and harmonics k*w0 <= w_max), each spectral line is shown by z3 to satisfy the tableau at its frequency (periodic sources contribute their true harmonic from the C08 integration oracle), the time functions are shown to equal sum_k Re(X_k e^{j w_k t}) through a polar contract stub for abs/angle, two-sided spectra must be X_0, X_k/2, conj(X_k)/2, and no two analysed frequencies may lie within the frequency resolution of each other; history variants analyse the same circuit object first with other values (same frequencies) and exchange its components in place',
         assumptions=['exact real arithmetic, pi transcendental', 'np.linalg.solve contract stub', 'abs(X), angle(X) return rho >= 0, theta with rho e^{j theta} = X',
                      f'at most {KMAX} harmonics per periodic source below w_max (paths above counted as out_of_bound)', 'w_resolution default 1e-3, fundamental above twice the resolution',
                      'regions where some analysed frequency gives a structurally ill-posed network are skipped',
